@@ -9,11 +9,11 @@ Local Open Scope N_scope.
     The environment serves every request immediately and drains every port. *)
 Definition pat (n : nat) (seed : N) : list N := map (fun i => (N.of_nat i * 3 + seed) mod 256) (seq 0 n).
 
-Definition serve_all : instant := mk_instant [] [0; 0; 0; 0]%nat [0; 0; 0; 0]%nat 4 8 8.
+Definition serve_all : instant := mk_instant [] [0; 0; 0; 0]%nat [0; 0; 0; 0]%nat [] [] 4 8 8.
 
 Definition unaligned_run (gin gout bufsize size : N) (n : nat) : env * list tick_obs * N :=
   env_run (mk_env (dm_init bufsize gin gout 2 8 8) (pat 512 1) (pat 512 101) [] [])
-          (mk_instant [mk_move 77 1 0 256 size 0 1] [] [] 1 2 2 :: repeat serve_all n).
+          (mk_instant [mk_move 77 1 0 256 size 0 1] [] [] [] [] 1 2 2 :: repeat serve_all n).
 
 Theorem c23_unaligned_size_refuted :
   (* 100 B, granularities 64/64: acknowledged, but bytes outside [256, 356) of the destination changed *)
